@@ -15,11 +15,11 @@
        escapes first (`*_refuted`, reproduced on the real code as KNOWN-FINDINGs) and proved outside
        them (`C03_args_guard_exact_partial`).
    `run` is the model of coq/Model/Pedantic.v, tied to the source by translator/t_pedantic.py
-   (Gen/Pedantic.v: `C03_cfg_good`, `C03_model_locks`) and the correspondence of bin/check C03.   *)
+   (Gen/Pedantic.v: `C03_cfg_good`; AST locks of the hand-modelled functions: obligation locks:hand-modelled-functions of bin/check) and the correspondence of bin/check C03.   *)
 From Coq Require Import List Arith Bool String ZArith Lia.
 From PV Require Import Base.Exn Base.Values Base.Ann Base.PyCall Model.CheckerCfg Model.Checker Model.PedanticCfg
   Model.Pedantic Model.PedanticEval Spec.Conforms Spec.PedanticSpec
-  Model.GenWrapper Proofs.PedanticBase Proofs.PyCallFacts Proofs.PedanticC03 Proofs.PedanticGen Proofs.PedanticWitness Gen.Pedantic Gen.CheckerTables.
+  Model.GenWrapper Proofs.PedanticBase Proofs.PyCallFacts Proofs.PedanticC03 Proofs.PedanticGen Proofs.PedanticChecker Proofs.PedanticWitness Gen.Pedantic Gen.CheckerTables.
 Import ListNotations.
 Close Scope Z_scope.
 Open Scope list_scope.
@@ -28,10 +28,6 @@ Open Scope list_scope.
 Theorem C03_cfg_good : pc_good Gen.Pedantic.pedantic_cfg = true.
 Proof. vm_compute. reflexivity. Qed.
 Print Assumptions C03_cfg_good.
-
-Theorem C03_model_locks : Gen.Pedantic.locks = PedanticBase.model_locks.
-Proof. vm_compute. reflexivity. Qed.
-Print Assumptions C03_model_locks.
 
 (* ---------------- relative to any checker, no hypothesis ---------------- *)
 (* if the checker rejects a supplied value (whatever TypeVar bindings it is given), the call raises and the
@@ -179,6 +175,39 @@ Print Assumptions C03_args_guard.
 Print Assumptions C03_args_guard_exact_partial.
 Print Assumptions C03_result_guard.
 Print Assumptions C03_result_guard_exact_partial.
+
+(* ---------------- closed: the model of the whole library ---------------- *)
+(* the hypotheses discharged by the C01 / C02 theorems (Proofs/CheckerTop.v via Proofs/PedanticChecker.v): `run1` is the
+   call protocol over the REGENERATED pedantic_cfg with the checker model over the REGENERATED checker tables *)
+Theorem C03_args_guard_closed : forall ctx f c bd,
+  sig_ok f = true -> c03_args_bad ctx f c = true ->
+  snd (run1 ctx f c bd) = [] /\ exists e, fst (run1 ctx f c bd) = Raise e.
+Proof.
+  intros ctx f c bd Hs H. unfold run1.
+  exact (C03_args_guard gcfg ctx (checker1_rejects ctx) _ _ f c bd C03_cfg_good Hs H).
+Qed.
+Print Assumptions C03_args_guard_closed.
+
+Theorem C03_args_guard_exact_closed_partial : forall ctx f c bd,
+  sig_ok f = true -> c03_args_bad ctx f c = true ->
+  assert_uses_kwargs Gen.Pedantic.pedantic_cfg f c = Ok tt ->
+  (is_instance_method f = true -> wargs c <> []) ->
+  (forall inst, instance_of f c = Ok inst -> clazz_probe f c inst = Ok tt) ->
+  forallb (fun p => match p_ann p with Some a => supported ctx a | None => true end) (f_params f) = true ->
+  run1 ctx f c bd = (Raise PTypeCheckC, []).
+Proof.
+  intros ctx f c bd Hs H Ha Hi Hp Hsup. unfold run1.
+  exact (C03_args_guard_exact_partial gcfg ctx (checker1_rejects ctx) (checker1_raises_ptc_only ctx) _ _ f c bd C03_cfg_good Hs H Ha Hi Hp Hsup).
+Qed.
+Print Assumptions C03_args_guard_exact_closed_partial.
+
+Theorem C03_result_guard_closed : forall ctx f c bd,
+  (forall b cons v, bd b cons = Ok v -> c03_result_bad ctx f v = true) ->
+  exists e, fst (run1 ctx f c bd) = Raise e.
+Proof.
+  intros ctx f c bd H. unfold run1. exact (C03_result_guard gcfg ctx (checker1_rejects ctx) _ _ f c bd C03_cfg_good H).
+Qed.
+Print Assumptions C03_result_guard_closed.
 
 (* ---------------- refutations of "the exception is PedanticTypeCheckException" (known findings) ---------------- *)
 (* K10: K.m(self=k, a='x'): IndexError (self.args[0]) - the body does not run, but no Pedantic exception *)
